@@ -34,6 +34,11 @@ def stats_for(cfg, rng, quick):
         out.append(('tbl.m3', [TBL, TBL, TBL], False))
     if not quick and rng.random() < 0.2:
         out.append(('th.m4', [TH, TH, TH, TH], False))
+    if quick:
+        # every case checks both means and two of the higher-order statistics
+        rest = out[2:]
+        rng.shuffle(rest)
+        out = out[:2] + rest[:2]
     return out
 
 
@@ -83,6 +88,10 @@ def one(ctx, i):
     rng = random.Random(f'{ctx.seed}-c01-{i}')
     quick = ctx.quick
     cfg = gen.rand_cfg(rng, n_max=5 if quick else 7, demes_max=3, epochs_max=3 if quick else 4)
+    if quick and len(cfg['n']) == 3 and sum(cfg['n'].values()) > 4:
+        cfg['n'][list(cfg['n'])[0]] = max(0, cfg['n'][list(cfg['n'])[0]] - 1)
+        if sum(cfg['n'].values()) < 2:
+            cfg['n'][list(cfg['n'])[0]] = 2
     u = rng.random()
     if u < 0.35:
         cfg['end_time'] = float(2.0 ** rng.randint(-2, 3))
@@ -97,13 +106,13 @@ def one(ctx, i):
     ctx.count('end_time' if cfg.get('end_time') is not None else 'default-horizon')
     if cfg.get('start_time'):
         ctx.count('start_time')
-    compare(ctx, cfg, coal, pg, C.frac(T), 150 if quick else 260, rng)
+    compare(ctx, cfg, coal, pg, C.frac(T), 45 if quick else 120, rng)
 
 
 def run(ctx):
     import check
-    n = 110 if ctx.quick else 500
-    check.pmap(ctx, 'props.c01', 'one', list(range(n)), case_timeout=240 if ctx.quick else 900)
+    n = 128 if ctx.quick else 400
+    check.pmap(ctx, 'props.c01', 'one', list(range(n)), case_timeout=150 if ctx.quick else 1200)
 
 
 def replay(ctx, payload):
